@@ -269,7 +269,7 @@ func c03Run(c *core.Ctx) *core.Result {
 		r.Count("prior_dirs_announced_as_symlink_or_fifo", 1)
 	}
 	// one mutation
-	mut := core.Pick(R, []string{"none", "none", "dotdot", "dot", "empty", "updown", "dotdotx", "abs", "unclean", "dup", "order", "childofnondir", "noparent", "hl-unknown", "hl-later", "hl-escape", "hl-nonfile", "data-unsolicited", "data-afterterm", "backslash", "newline", "hugesize", "fin-early", "stat-after-end", "err-packet", "req-from-sender", "hl-via-dest-symlink", "hl-via-dest-symlink", "tmp-name-planted", "random-script", "random-script", "deep-revisit", "deep-revisit"})
+	mut := core.Pick(R, []string{"none", "none", "dotdot", "dot", "empty", "updown", "dotdotx", "abs", "unclean", "dup", "order", "childofnondir", "noparent", "hl-unknown", "hl-later", "hl-escape", "hl-nonfile", "data-unsolicited", "data-afterterm", "backslash", "newline", "hugesize", "fin-early", "stat-after-end", "err-packet", "req-from-sender", "hl-via-dest-symlink", "hl-via-dest-symlink", "tmp-name-planted", "random-script", "random-script", "deep-revisit", "deep-revisit", "listing-dir-child"})
 	k := 0
 	if len(stats) > 0 {
 		k = R.Intn(len(stats) + 1)
@@ -303,6 +303,7 @@ func c03Run(c *core.Ctx) *core.Result {
 		}
 	}
 	var unsolicited []hpkt
+	forceMeta := false
 	hlSrc, hlDst := "", ""
 	extraAfterEnd := false
 	finEarly := false
@@ -413,6 +414,29 @@ func c03Run(c *core.Ctx) *core.Result {
 				}
 			}
 		}
+	case "listing-dir-child":
+		// the name of the metadata-only listing announced as a directory with
+		// a child, while dest holds a symlink of that name that points to an
+		// outside directory; run (mostly) as a merging metadata-only receive,
+		// where nothing stale is removed first: whatever the receiver makes
+		// of the reserved name, the child must not land outside
+		chain := []*types.Stat{dirStat(".fsutil-metadata"), fileStat(".fsutil-metadata/x")}
+		content[".fsutil-metadata/x"] = []byte("pwned")
+		if R.P(1, 2) {
+			chain = append(chain, &types.Stat{Path: ".fsutil-metadata/y", Mode: uint32(os.ModeSymlink | 0777), Linkname: "x"})
+		}
+		at := len(stats)
+		for i, st := range stats {
+			if tree.CmpPath(st.Path, ".fsutil-metadata") > 0 {
+				at = i
+				break
+			}
+		}
+		stats = append(stats[:at], append(chain, stats[at:]...)...)
+		os.RemoveAll(filepath.Join(dest, ".fsutil-metadata"))
+		os.Symlink(core.Pick(R, []string{outside + "/dir", up + rc + "/outside/dir"}), filepath.Join(dest, ".fsutil-metadata"))
+		forceMeta = true
+		r.Count("listing_name_as_directory_scripts", 1)
 	case "deep-revisit":
 		// a directory chain whose depth lies around the sizes at which a
 		// growing per-level stack is re-allocated (8..12, 18..22, 38..42);
@@ -497,6 +521,11 @@ func c03Run(c *core.Ctx) *core.Result {
 		opt.Merge = true
 	case "metaonly":
 		opt.MetaOnly = core.Pick(R, []string{"none", "all", "files"})
+	}
+	if forceMeta && R.P(3, 4) {
+		mode = "merge+metaonly"
+		opt.Merge = true
+		opt.MetaOnly = core.Pick(R, []string{"all", "files"})
 	}
 	if hlSrc != "" {
 		mode = "merge+metaonly"
